@@ -5,8 +5,8 @@
 
   Remediation R6 (review findings B6, B14, C3, section "# C01"): the Spec no longer copies pgread's heuristics.  Four
   recorded OPEN findings (fixes/cluster/known_findings.json) are carved out as explicit hypotheses — `Spec.TemplatesByName`
-  (C01-TPL: template database = name prefix instead of datistemplate), `Spec.A02Free` (A02: inline-compressed values are
-  dumped as their compressed bytes, out-of-line values as nil), `Spec.Cluster.Plain` (C01-SEG: rows in segment files
+  (C01-TPL: template database = name prefix instead of datistemplate), `Spec.A02Free` (A02: out-of-line values are dumped
+  as nil; the inline-compressed half of A02 is repaired by fixes/rows/09 and no longer excluded), `Spec.Cluster.Plain` (C01-SEG: rows in segment files
   `<filenode>.N` are not read; C01-TBLSPC: relations outside the default tablespace are dumped without rows) — and the
   table filter is covered where Go's Unicode case folding is the Spec's ASCII folding (`GoCase.FilterStable`, part of `DbDumpable`).  The scalar
   decoder hypothesis `CatDec` is discharged for the composed model of DecodeType (`C01_catDec_real`, `C01_dump_real`).
@@ -247,9 +247,10 @@ the encoded heap returns the specification's table: rows = the row versions of t
 in page then line-pointer order, each decoded to what was stored (`Spec.storedRow`: NULLs, short and long varlena
 headers, C strings, attributes beyond the stored count; every column read at its catalog alignment — the former A03 —; the
 empty row `{}` for each live row of a table without columns — the former A01z), `RowCount` = their number; none when
-schema-only.  Hypothesis `hinl` is the carve-out of the OPEN finding A02: no row of the heap holds an inline-compressed or
-an out-of-line (TOASTed) value — for those `Spec.storedRow` demands the original value and pgread reports the compressed
-bytes / nil (witness in known_findings.json).  Hypothesis `hmiss` is the carve-out of the OPEN finding C01-MISSINGVAL: the
+schema-only.  Hypothesis `hinl` is the carve-out of the OPEN finding A02: no row of the heap holds
+an out-of-line (TOASTed) value — for those `Spec.storedRow` demands the original value and pgread reports nil (witness in
+known_findings.json).  Values compressed IN LINE are covered (`Spec.inlineDatum` holds for them since fixes/rows/09:
+ReadVarlena returns the original bytes, `C03_compressed_inline`).  Hypothesis `hmiss` is the carve-out of the OPEN finding C01-MISSINGVAL: the
 database records no fast default (`atthasmissing` / `attmissingval`) — where it does, PostgreSQL returns the default for the
 attributes a row written before the ALTER TABLE does not store (`Spec.fillMissing`) and pgread reports nil. -/
 theorem C01_rows (dec : Dec) (l : Layout) (d : DbContent) (o : Options) (r : ClassRow) (rd : FileReader)
@@ -280,7 +281,7 @@ the catalog column types (`CatDec`; the composed model of DecodeType does: `C01_
     finds no databases / no tables / no columns;
   * `hnm` (carve-out of finding C01-MISSINGVAL): no database records a fast default (`atthasmissing` / `attmissingval`);
   * for every database that is dumped: `A02Free` (carve-out of finding A02: no row of a table dumped with its rows holds an
-    inline-compressed or out-of-line value) and `DbDumpable` (no finding: a version hint, if given, names the layout, and
+    out-of-line value; inline-compressed values are allowed) and `DbDumpable` (no finding: a version hint, if given, names the layout, and
     attstorage characters are legal; the dumped tables' attnums are dense; their files are theirs alone; the table filter,
     if any, and the relation names are strings on which Go's `ToLower` is ASCII lower-casing — `GoCase.FilterStable`):
 whenever DumpDataDir on the cluster's file tree returns, its result is — database by database in pg_database order,
@@ -403,8 +404,18 @@ theorem exCluster_WF : exCluster.WF := by
   subst this
   exact exDb_WF
 
+/-- **Inline-compressed values are inside the theorems (former half of finding A02, repaired by fixes/rows/09).**  A value
+stored compressed in line does not violate `A02Free` (`Spec.inlineDatum` holds for it: only out-of-line values are
+excluded), and what the dump must show for it (`Spec.storedVal`, "each value equal to what was stored") is the rendering of
+the ORIGINAL bytes its pglz / LZ4 stream stands for — which is what the row's own bytes give through ReadVarlena
+(`Spec.expectedVal`, proved against the model in `C03_layout` / `C03_compressed_inline`). -/
+theorem C01_compressed_inline (val : Spec.Val) (tbl : List (Spec.Datum × Bytes)) (c : Spec.Col) (z : Spec.Comp) :
+    Spec.inlineDatum (some (.compressed z)) = true ∧
+    Spec.storedVal val tbl c (.compressed z) = val z.original c.typid ∧
+    Spec.expectedVal val c (.compressed z) = val z.original c.typid := ⟨rfl, rfl, rfl⟩
+
 /-- the example database is dumpable without a version hint (automatic choice) and with the true one, for every ASCII
-table filter, and no value in it is compressed or out of line -/
+table filter, and no value in it is out of line -/
 theorem exDb_dumpable (o : Options) (hv : o.pgVersion = 0 ∨ o.pgVersion = 14) (hf : Spec.asciiB o.tableFilter = true) :
     DbDumpable .v14 exDb o ∧ Spec.A02Free exDb o := by
   refine ⟨⟨?_, GoCase.filterStable_ascii _ _ hf (by decide), ?_, ?_⟩, ?_⟩
